@@ -53,6 +53,15 @@ CHECKS = {
  "C16": (True, "exhaustive (worker count x length) enumeration with the worker count set through the thread's CPU affinity and observed via num_cpus::get(); exact-integer differential oracle, reassociation bound, repeated-execution determinism under load with a moving CPU set; proptest for long random lengths",
          "All 16 x 201 (workers, length) pairs in every run for exactly summable data (bit-identical to the sequential and to an exact integer dot product), random data within the reassociation bound, and repeated calls on cancellation-prone data under CPU load and changing affinity (bit-identical).",
          "Trusted: sched_setaffinity/num_cpus behaviour of this kernel; the scheduler is not controlled: repetition samples interleavings but cannot exclude a schedule-dependent result.", "5/C16"),
+ "C17": (True, "proptest choice-stream PBT over generated function families with roots known by construction (success half) and root-free / constant / non-differentiable / NaN functions (termination half); evaluation points logged inside the closures reconstruct the trajectory; repeat-call differential",
+         "All six Newton entry points on hundreds of thousands of generated problems: accuracy of reported roots, evaluation-count bounds, Ok iff the stopping criterion is met at the last executed iteration, Err carries the last iterate, configuration untouched, repeated calls bit-identical.",
+         "Trusted: analytic roots/derivatives of the generated families; basin sizes chosen so that quadratic convergence holds; the stopping criteria named in the property anchors.", "5/C17"),
+ "C18": (True, "exhaustive (real/complex, m, n) enumeration + generated affine maps on dyadic data (exact equality oracle) and smooth nonlinear maps (truncation+rounding bound); closure-call log checked for order, count and coordinate restoration",
+         "All 72 shapes (incl. m < n and m > n) in every run with thousands of generated maps: shape, exact entries for affine maps, O(delta) accuracy for smooth maps, and the exact sequence of evaluation points.",
+         "Trusted: exactness of dyadic floating-point arithmetic; analytic derivatives of the generated maps.", "5/C18"),
+ "C19": (True, "proptest choice-stream PBT: array model for every mesh access path under generated write histories; double-double cell sums and closed forms for quadrature; linear-interpolant oracle; output/read round trip through scratch files",
+         "Tens of thousands of generated 1-D/2-D meshes on non-uniform dyadic grids with write histories through every path; stored values, cross-sections, matrix views, interpolation, trapezium rules and the file round trip are compared with the model.",
+         "Trusted: the array model, double-double sums; interpolation points kept 1e-6 away from nodes as the property allows.", "5/C19"),
 }
 NOT_YET = "check not built yet in this revision of /verif (work in progress); the design for it is in DESIGN.md section 5"
 
